@@ -198,4 +198,100 @@ example : Gmx.demoLedger.st.glp = 0 ∧ Gmx.demoLedger.tokensIn = 3 / 2 ∧ 0 < 
     Gmx.demoLedger.tokensOut < 3 / 2 ∧ 149 / 100 < Gmx.demoLedger.tokensOut := by
   decide +kernel
 
+
+/-! ### any tokens: the same statement in USD at the row's prices -/
+
+/-- USD price of a token in the row (`{tok}_price / 10³⁰`; 0 when the row has no such column — every call on it is rejected) -/
+def Gmx.priceOf (env : Env) (tok : String) : Rat :=
+  match env.row? tok with
+  | some r => r.price / 10 ^ 30
+  | none => 0
+
+/-- ledger in USD: value (at the row's prices) of the tokens paid into accepted buys / received from accepted sales -/
+structure Gmx.UsdLedger where
+  st : State
+  usdIn : Rat
+  usdOut : Rat
+
+/-- one call of the real `step`, on any token -/
+def Gmx.UsdLedger.apply (env : Env) (l : Gmx.UsdLedger) (op : Op) : Gmx.UsdLedger :=
+  match op, step NumCtx.exact env l.st op with
+  | .buy t _ a, (.ok _, s') => { st := s', usdIn := l.usdIn + a * Gmx.priceOf env t, usdOut := l.usdOut }
+  | .sell t _ _, (.ok out, s') => { st := s', usdIn := l.usdIn, usdOut := l.usdOut + out * Gmx.priceOf env t }
+  | _, (_, s') => { l with st := s' }
+
+theorem Gmx.usdLedger_step {env : Env} (he : EnvPos env) (g0 : Rat) (l : Gmx.UsdLedger) (op : Op)
+    (hinv : l.usdOut - l.usdIn ≤ (g0 - l.st.glp) * (aumU env / env.glpSupply)) :
+    (l.apply env op).usdOut - (l.apply env op).usdIn ≤ (g0 - (l.apply env op).st.glp) * (aumU env / env.glpSupply) := by
+  cases op with
+  | buy tok dec a =>
+    unfold Gmx.UsdLedger.apply
+    simp only [step]
+    cases hb : buyGlp NumCtx.exact env l.st tok dec a with
+    | mk res s' =>
+      cases res with
+      | error e =>
+        have : s' = l.st := buyGlp_reject hb
+        subst this
+        exact hinv
+      | ok g =>
+        obtain ⟨r, hr, hv⟩ := Gmx.buy_ge_value he hb
+        obtain ⟨_, mint, fee, br, w, _, _, _, hs'⟩ := Gmx.buyGlp_ok hb
+        have hp : Gmx.priceOf env tok = r.price / 10 ^ 30 := by unfold Gmx.priceOf; rw [hr]
+        simp only []
+        rw [hs', hp]; simp only []
+        nlinarith
+  | sell tok dec ga =>
+    unfold Gmx.UsdLedger.apply
+    simp only [step]
+    cases hb : sellGlp NumCtx.exact env l.st tok dec ga with
+    | mk res s' =>
+      cases res with
+      | error e =>
+        have : s' = l.st := sellGlp_reject hb
+        subst this
+        exact hinv
+      | ok out =>
+        obtain ⟨r, hr, hv, hs', _⟩ := Gmx.sell_le_value_any he hb
+        have hp : Gmx.priceOf env tok = r.price / 10 ^ 30 := by unfold Gmx.priceOf; rw [hr]
+        simp only []
+        rw [hs', hp]
+        nlinarith
+  | update =>
+    unfold Gmx.UsdLedger.apply
+    have : (step NumCtx.exact env l.st .update).2.glp = l.st.glp := by
+      show (update NumCtx.exact env l.st).2.glp = _
+      unfold update; simp only []; split <;> rfl
+    simp only []
+    rw [this]
+    exact hinv
+
+/-- **every buy/sell sequence on a frozen row, any tokens**: for ANY list of `buy_glp` / `sell_glp` / `update` calls — different
+    tokens, accepted or rejected, any amounts and order, any starting state —, if the GLP holding at the end is at least the
+    holding at the start, the USD value (at the row's prices) of all tokens received does not exceed that of all tokens paid. -/
+theorem C17_v1_sequence_no_profit_any_token {env : Env} (he : EnvPos env) (ops : List Op) (s : State) :
+    let l := ops.foldl (Gmx.UsdLedger.apply env) { st := s, usdIn := 0, usdOut := 0 }
+    s.glp ≤ l.st.glp → l.usdOut ≤ l.usdIn := by
+  intro l hfin
+  have key : ∀ (ops : List Op) (l0 : Gmx.UsdLedger),
+      l0.usdOut - l0.usdIn ≤ (s.glp - l0.st.glp) * (aumU env / env.glpSupply) →
+      (ops.foldl (Gmx.UsdLedger.apply env) l0).usdOut - (ops.foldl (Gmx.UsdLedger.apply env) l0).usdIn
+        ≤ (s.glp - (ops.foldl (Gmx.UsdLedger.apply env) l0).st.glp) * (aumU env / env.glpSupply) := by
+    intro ops
+    induction ops with
+    | nil => intro l0 h; exact h
+    | cons op ops ih => intro l0 h; exact ih _ (Gmx.usdLedger_step he s.glp l0 op h)
+  have h := key ops { st := s, usdIn := 0, usdOut := 0 } (by simp)
+  have hV : 0 ≤ aumU env / env.glpSupply := div_nonneg (Gmx.aumU_nonneg he) (le_of_lt he.glpSupply)
+  have h0 : (s.glp - l.st.glp) * (aumU env / env.glpSupply) ≤ 0 := mul_nonpos_of_nonpos_of_nonneg (by linarith) hV
+  have : l.usdOut - l.usdIn ≤ 0 := le_trans h h0
+  linarith
+
+/-- buy with 1 WETH, sell everything for USDC (`sell_glp(usdc, 0)`): 2000 USD in, less out -/
+def Gmx.demoUsdLedger : Gmx.UsdLedger :=
+  [Op.buy "weth" 18 1, Op.sell "usdc" 6 0].foldl (Gmx.UsdLedger.apply Gmx.demoEnv) { st := Gmx.demoState, usdIn := 0, usdOut := 0 }
+
+example : Gmx.demoUsdLedger.st.glp = 0 ∧ Gmx.demoUsdLedger.usdIn = 2000 ∧ 1980 < Gmx.demoUsdLedger.usdOut ∧
+    Gmx.demoUsdLedger.usdOut < 2000 := by decide +kernel
+
 end Demeter
